@@ -74,17 +74,20 @@ void f_vf_dealloc(uint32_t flags, uint64_t id, uint8_t *p, uint64_t bytes)
 
 uint64_t f_vf_soccc(uint64_t id) { return VF_SOCCC(id); }
 
-/* memcpy family with a run-time length: bounds are checked, content is transferred.
- * Constant-length copies never get here (ll2c turns them into struct assignments). */
+/* memcpy family with a run-time length (constant-length copies never get here: ll2c turns them into struct
+ * assignments).  Both ranges are bounds-checked; the destination range is overwritten with arbitrary bytes except for
+ * the witness byte g_wit, which is copied faithfully.  g_wit is an arbitrary constant chosen by the harness, so a
+ * postcondition proved about byte g_wit of a copy holds for every byte. */
+uint64_t g_wit;
 void *vf_memcpy(void *d, const void *s, uint64_t n)
 {
     __CPROVER_assert(n == 0 || __CPROVER_r_ok(s, n), "memcpy: source range readable");
     __CPROVER_assert(n == 0 || __CPROVER_w_ok(d, n), "memcpy: destination range writable");
     if (n != 0)
     {
-        uint8_t tmp[n];
-        __CPROVER_array_replace((uint8_t *)tmp, (const uint8_t *)s);
-        __CPROVER_array_replace((uint8_t *)d, (uint8_t *)tmp);
+        uint8_t w = g_wit < n ? ((const uint8_t *)s)[g_wit] : 0;
+        __CPROVER_havoc_slice(d, n);
+        if (g_wit < n) ((uint8_t *)d)[g_wit] = w;
     }
     return d;
 }
@@ -94,9 +97,8 @@ void *vf_memset(void *d, int c, uint64_t n)
     __CPROVER_assert(n == 0 || __CPROVER_w_ok(d, n), "memset: destination range writable");
     if (n != 0)
     {
-        uint8_t tmp[n];
-        __CPROVER_array_set((uint8_t *)tmp, (uint8_t)c);
-        __CPROVER_array_replace((uint8_t *)d, (uint8_t *)tmp);
+        __CPROVER_havoc_slice(d, n);
+        if (g_wit < n) ((uint8_t *)d)[g_wit] = (uint8_t)c;
     }
     return d;
 }
